@@ -27,11 +27,13 @@ import (
 type Trace struct {
 	mu  sync.Mutex
 	Log []val.V
+	Raw []types.MalType // the Go values as the builtin received them
 }
 
-func (t *Trace) add(v val.V) {
+func (t *Trace) add(v val.V, raw types.MalType) {
 	t.mu.Lock()
 	t.Log = append(t.Log, v)
+	t.Raw = append(t.Raw, raw)
 	t.mu.Unlock()
 }
 
@@ -84,7 +86,7 @@ var RealStdout = os.Stdout
 func AddTrace(e types.EnvType) *Trace {
 	tr := &Trace{}
 	call.CallOverrideFN(e, "trace!", func(a types.MalType) (types.MalType, error) {
-		tr.add(val.From(a))
+		tr.add(val.From(a), a)
 		return a, nil
 	})
 	return tr
@@ -182,4 +184,22 @@ func Lookup(e types.EnvType, name string) (types.MalType, bool) {
 		return nil, false
 	}
 	return v, true
+}
+
+// AddSentinels registers the harness builtins that fail with a known Go error:
+// raise-go! returns it, panic-go! panics with it, panic-val! panics with a lisp value.
+func AddSentinels(e types.EnvType) {
+	call.CallOverrideFN(e, "raise-go!", func() (types.MalType, error) { return nil, Sentinel })
+	call.CallOverrideFN(e, "panic-go!", func() (types.MalType, error) { panic(Sentinel) })
+	call.CallOverrideFN(e, "panic-val!", func(a types.MalType) (types.MalType, error) { panic(a) })
+}
+
+// ParseForms turns source text into top-level forms using the real reader. Only used
+// for hand-written corpus cases ("Src" field), never for generated cases.
+func ParseForms(src string) []val.V {
+	ast, err := lisp.READ("(do "+src+"\n)", nil, nil)
+	if err != nil {
+		panic(fmt.Errorf("corpus source does not read: %w", err))
+	}
+	return val.From(ast).L[1:]
 }
